@@ -319,10 +319,11 @@ def run(ctx):
     ek = set(lib._const_bytes_through(b2, a) for b2 in F.with_closures(lz) for c in b2.calls if c.local and c.cname.endswith("Dictionary::get") for a in c.args[1:])
     ctx.ob("R-TABLE", "lzw-earlychange", b"EarlyChange" in ek, "EarlyChange is read", lz.where(), what="EarlyChange is no longer read")
     a85 = F.fn("Stream::decode_ascii85")
-    consts = set()
-    for c in a85.calls:
-        if (c.fn or "").endswith("checked_mul"):
-            consts.add(("mul", a85.oname(c.args[1], 2)))
-    terms = [a85.rvname(s["rv"], 4) for bi, si, s in a85.stmts() if "lhs" in s and s["rv"]["k"] != "agg"]
-    ok85 = ("mul", "85") in consts and any("84" in t and "buffer" in t for t in terms) and any(re.search(r"Sub\(ch,33\)", t) for t in terms)
+    # structural renderings (names and helper boundaries do not matter): x.checked_mul(85), a digit `ch - 33`, the padding digit 84
+    mul85 = any((c.fn or "").endswith("checked_mul") and a85.sname(c.args[1], 4) == "85" for c in a85.calls)
+    adds = [a85.sname(c.args[1], 6) for c in a85.calls if (c.fn or "").endswith("checked_add")]
+    terms = [a85.sname({"c": s["lhs"]}, 6) if False else a85.rvname(s["rv"], 4) for bi, si, s in a85.stmts() if "lhs" in s and s["rv"]["k"] != "agg"]
+    pad84 = "84" in adds or any(re.search(r"Add\(.*,84\)", t) for t in terms)
+    sub33 = any(re.search(r"Sub\([^,()]+,33\)", t) for t in terms + adds)
+    ok85 = mul85 and pad84 and sub33
     ctx.ob("R-TABLE", "ascii85-constants", ok85, "base 85, digit = ch - '!', padding digit 84", a85.where(), what="ASCII85 decoding lost one of its constants (base 85, offset 33, padding 84)")
